@@ -177,6 +177,8 @@ func (c *tyCase) render(ntok int) string {
 				switch p.K {
 				case "tok":
 					b.WriteString(" " + tyTok(p.Tok))
+				case "inline":
+					fmt.Fprintf(&b, " (%s -> Inl%d)?", tyTok(p.Tok), p.Tok)
 				case "ref":
 					b.WriteString(" " + f + c.ntName(p.NT))
 				case "opt":
@@ -245,6 +247,10 @@ func (c *tyCase) sample(r *rand.Rand, i, depth int, out *[]int) {
 			switch p.K {
 			case "tok":
 				*out = append(*out, p.Tok)
+			case "inline":
+				if r.Intn(2) == 0 {
+					*out = append(*out, p.Tok)
+				}
 			case "ref":
 				c.sample(r, p.NT, depth-1, out)
 			case "opt":
@@ -478,6 +484,9 @@ func c21Gen(args []string) error {
 			for _, k := range perm[:1+r.Intn(nleaf)] {
 				nt.Alts = append(nt.Alts, k)
 			}
+			if i > 0 && r.Intn(2) == 0 { // nested categories: an earlier interface as an alternative
+				nt.Alts = append(nt.Alts, nleaf+r.Intn(i))
+			}
 			if r.Intn(2) == 0 {
 				nt.Op = tok() + 1
 			}
@@ -540,6 +549,8 @@ func c21Gen(args []string) error {
 					if r.Intn(2) == 0 {
 						p.Tok = tok() + 1
 					}
+				case x < 10 && r.Intn(2) == 0:
+					p.K, p.Tok, p.NT, p.Field = "inline", tok(), 0, ""
 				default:
 					p.K, p.Tok, p.Field = "tok", tok(), ""
 				}
